@@ -1047,7 +1047,7 @@ Definition const_prefix (ps : list param) (rq : bytes) : res bytes :=
      | p :: r =>
        let take_it := match pkind_of p with
                       | KCoded _ _ | KPhysConst _ _ => true
-                      | KMatchReq rqpos _ => rqpos <? blen rq
+                      | KMatchReq rqpos len => rqpos + len <=? blen rq   (* since the fix commit: the whole mirrored range *)
                       | _ => false
                       end in
        if take_it then do s1 <- enc_param (fuel_of ps) p [] s; go r s1 else Ok (e_msg s)
